@@ -129,16 +129,16 @@ func NewTextStyle(style pr.StyleAccessor, ignoreSpacing bool) *TextStyle {
 	out.Hyphens = newHyphens(style.GetHyphens())
 	out.HyphenateLimitChars = style.GetHyphenateLimitChars()
 	out.HyphenateCharacter = string(style.GetHyphenateCharacter())
-	out.HyphenateLimitZone = newHyphenateZone(style.GetHyphenateLimitZone())
 
 	if !ignoreSpacing {
 		out.WordSpacing = pr.Fl(style.GetWordSpacing().Value)
 		if ls := style.GetLetterSpacing(); ls.S != "normal" {
 			out.LetterSpacing = pr.Fl(ls.Value)
 		}
-		// (like the spacings, tab-size may itself be a length in ex or ch :
-		// it must not be read while the ex / ch ratio of the font is measured)
+		// (like the spacings, tab-size and hyphenate-limit-zone may themselves be lengths in ex or ch :
+		// they must not be read while the ex / ch ratio of the font is measured)
 		out.TabSize = newTabSize(style.GetTabSize())
+		out.HyphenateLimitZone = newHyphenateZone(style.GetHyphenateLimitZone())
 	}
 
 	out.FontFeatures = getFontFeatures(style)
